@@ -100,6 +100,9 @@ func main() {
 			}
 		case "min":
 			runMin(c)
+		case "history":
+			runVerifyHistory(c)
+			runReuseHistory(c)
 		case "bigchunk", "bigad":
 			fmt.Println("the large values are rebuilt by a normal run; running it")
 			runValues(c)
@@ -123,4 +126,6 @@ func main() {
 	runDeep(c)
 	runEntryPoints(c)
 	runMin(c)
+	runVerifyHistory(c)
+	runReuseHistory(c)
 }
